@@ -185,11 +185,15 @@ CHECKS = {
                      'zero-value UnsafeGoMap/UnsafeGoSet fallbacks: correspondence + direct checks only'],
     ),
     'C04': dict(
-        spec=['FpVerif.Spec.C04Seq', 'FpVerif.Spec.C04Facts', 'FpVerif.Spec.C04Frame', 'FpVerif.Spec.C04Hamt', 'FpVerif.Spec.C03'],
+        spec=['FpVerif.Spec.C04Seq', 'FpVerif.Spec.C04Facts', 'FpVerif.Spec.C04Frame', 'FpVerif.Spec.C04Hamt', 'FpVerif.Spec.C03',
+              # a lazy fp.List shows the same contents for ever only because each of its cells is a Once-guarded memo (seed C04-10:
+              # fp.Memoize without the Once - two goroutines forcing one cell both consume the source and see different lists)
+              'FpVerif.Spec.C16Facts', 'FpVerif.Spec.C16Panic', 'FpVerif.Spec.C16PanicEval'],
         facts=facts_c04,
         harnesses=[H('seqheap', 'oracle_seqheap', 4000, 200000),
                    H('frame', None, 60000, 3000000, nontrivial=lambda op, impl: op.count('(') >= 2),
-                   H('hamt', 'oracle_hamt', 40000, 4000000)],
+                   H('hamt', 'oracle_hamt', 40000, 4000000),
+                   H('memopanic', 'oracle_memopanic', 20000, 20000, spec_level=True)],
         level='proof',
         level_note='trusted: Lean kernel (propext/Classical.choice/Quot.sound only); model fidelity checked by correspondence (alias class = which backing '
                    'array and offset, and contents, of every result; plus the direct check that no backing array ever seen changes over its full capacity). '
@@ -371,7 +375,9 @@ CHECKS = {
                    # memoised list cells (Spec/C12List.started_at_most_once) are exercised by the same harness
                    H('iter', 'oracle_iter', 2000, 200000, spec_level=True, project=project_iter, extra=dict(quick=['-prop', 'C12'], thorough=['-prop', 'C12'])),
                    # memoised / deferred computations whose thunk panics or changes behaviour between executions (work package ONCEPANIC)
-                   H('memopanic', 'oracle_memopanic', 20000, 20000, spec_level=True)],
+                   H('memopanic', 'oracle_memopanic', 20000, 20000, spec_level=True),
+                   # lazy.Func1..3 (deferred calls: seed C16-10, Func3 built without Call) and every other family member returning an Eval
+                   H('arity', 'oracle_arity', 8000, 800000, spec_level=True, nontrivial=lambda op, impl: op.count(' ') >= 3)],
         level='proof',
         level_note='trusted: Lean kernel (propext/Classical.choice/Quot.sound only); model fidelity checked by correspondence; '
                    'sync.Once trusted to give the blocking exactly-once semantics modelled in Model/Memo.lean. Call DEPTH (number of logical frames) of '
